@@ -96,9 +96,6 @@ func Canon(src []byte, alias, importPath string) (tree string, comments []string
 			specs = append(specs, sp)
 		}
 		if len(specs) > 0 {
-			sort.SliceStable(specs, func(i, j int) bool {
-				return specs[i].(*ast.ImportSpec).Path.Value < specs[j].(*ast.ImportSpec).Path.Value
-			})
 			gd.Specs = specs
 			decls = append(decls, gd)
 		}
@@ -168,12 +165,12 @@ type TrackCall struct {
 
 // Instrumentation describes the artefacts found in a working tree.
 type Instrumentation struct {
-	Calls      []TrackCall       // in (path, source) order
-	Serve      map[string][]int  // file -> component ids passed to ServeHTTP
-	ServeFirst map[string]bool   // file -> the ServeHTTP call is the first statement of main
-	Markers    map[string]int    // file -> number of "// +goat:" comment lines
-	Imports    map[string]bool   // file -> imports the tracking package
-	BadBlocks  []string          // calls that are not enclosed in a well-formed marker block
+	Calls      []TrackCall      // in (path, source) order
+	Serve      map[string][]int // file -> component ids passed to ServeHTTP
+	ServeFirst map[string]bool  // file -> the ServeHTTP call is the first statement of main
+	Markers    map[string]int   // file -> number of "// +goat:" comment lines
+	Imports    map[string]bool  // file -> imports the tracking package
+	BadBlocks  []string         // calls that are not enclosed in a well-formed marker block
 }
 
 // Scan walks dir (skipping .git and the tracking package directory) and collects artefacts.
